@@ -116,6 +116,8 @@ PROPS = {
             rapid("faults", "TestC06Faults", 2500, 25000),
             enum("fault-matrix", "TestC06FaultMatrix"),
             rapid("random-domain", "TestC06RandomDomain", 20000, 200000),
+            rapid("ill-typed-expressions", "TestC06IllTypedExpressions", 10000, 100000),
+            enum("operator-table", "TestC06OperatorTable"),
         ],
     ),
     "C07": dict(
